@@ -14,9 +14,14 @@ TRUSTED = ['clang 14 AST + constant evaluation', 'bsfacts', 'bsv/dtab.py interpr
 
 
 def run(prog, rep):
+    from rules import csv_options
+    csv_options.check(prog, rep, 'R10.13')
     M.check_reader_twins(prog, rep)
     rep.rule('R10.1s', 'string and stream SkipValueImpl skip the same extent and the same number of nested values for every first byte', floor=256)
     M.check_skip_twins(prog, rep, 'R10.1s')
+    rep.rule('R10.12', 'both MsgPack reader copies keep every length taken from the input in an integer object wide enough for its length field '
+                       '(8 x field bytes, one more bit when something is added): a copy that narrows it agrees with its twin only for short payloads', floor=20)
+    M.narrow_findings(prog, rep, 'R10.12')
     from rules import c06
     from rules import msgpack_writer_tables as W
     rep.rule('R10.2', 'memory and stream MsgPack writers have equal emission tables for every overload and every value/length cell', floor=240)
